@@ -36,7 +36,6 @@ from funsor.interpretations import reflect
 from funsor.terms import Reduce, Funsor, to_funsor, Lambda, Independent
 
 DECLINE = (NotImplementedError, AssertionError, ValueError, TypeError, KeyError, IndexError, AttributeError)
-KF_LAMBDA = "KF-lambda-getslice-const-body"
 KF_MINMAX = "KF-minmax-mul-negative"
 
 
@@ -149,21 +148,6 @@ def is_core(r):
     return core_kind(r) is not None
 
 
-def lambda_getslice_region(r):
-    """Region of the open finding KF-lambda-getslice-const-body: a getslice applied directly to a Lambda
-    whose body does not mention the bound variable."""
-    for x in subrecipes(r):
-        if x[0] == "getslice" and x[2][0] == "lambda":
-            lam = x[2]
-            try:
-                body = syntax(lam[3])
-            except Exception:
-                return True
-            if lam[1] not in body.inputs:
-                return True
-    return False
-
-
 def _has_mul(r):
     return any(x[0] == "binary" and x[1] == "mul" for x in subrecipes(r)) or \
         any(x[0] in ("einsum", "independent") for x in subrecipes(r))
@@ -197,9 +181,6 @@ def in_open_region(ctx, r):
     t = tags_of(r)
     if ("not" in t or "boolbin" in t) and number_bool_region(r):
         ctx.count("skipped-beyond-model:bitwise-number-bool")
-        return True
-    if "getslice" in t and lambda_getslice_region(r):
-        ctx.count("skipped-open-finding-region:" + KF_LAMBDA)
         return True
     if "reduce" in t and minmax_mul_region(r):
         ctx.count("skipped-open-finding-region:" + KF_MINMAX)
@@ -708,27 +689,7 @@ def stream_exhaustive(ctx):
     return [Case("exh", r) for r in L + d1 + d2 if not in_open_region(ctx, r)]
 
 
-# ---- dedicated stream for the open finding -----------------------------------------------------------
-
-def stream_known(ctx):
-    """KF-lambda-getslice-const-body: x[a:b] on a lazy Lambda whose body ignores the bound variable
-    returns the body (the sliced axis disappears)."""
-    x = Lambda(Variable("w", Bint[4]), Number(-1.0))
-    try:
-        y = x[0:3]
-        reproduced = tuple(getattr(y, "output", Real).shape) != (3,)
-    except DECLINE:
-        reproduced = False
-    ctx.count("known:lambda-getslice:" + ("reproduced" if reproduced else "not-reproduced"))
-    if not ctx.known(KF_LAMBDA, reproduced, what="Lambda(w:Bint[4], Number(-1.0))[0:3] is the scalar -1.0, expected a 3-vector"):
-        if reproduced:
-            ctx.fail("input", "C01.lambda-getslice-const-body",
-                     witness=["getslice", [["s", 0, 3, 1]], ["lambda", "w", 4, ["num", -1.0, "real"]]],
-                     expected="Reals[3] array [-1,-1,-1]", got=f"{y!r} : {y.output}",
-                     python=gen_terms.PY_HEADER +
-                     "x = Lambda(Variable('w', Bint[4]), Number(-1.0))\ny = x[0:3]\nprint(repr(y), y.output)\n"
-                     "FAILS = tuple(y.output.shape) != (3,)\n")
-
+# ---- dedicated stream for the open finding KF-minmax-mul-negative ---------------------------------------
 
 def stream_known_minmax(ctx):
     """KF-minmax-mul-negative: min/max over a lazy product with a negative factor."""
@@ -776,7 +737,6 @@ def correspond(ctx):
     if not quick:
         run_cases(ctx, stream_exhaustive(ctx))
         ctx.extra["exhaustive_stratum"] = "all depth<=2 expressions over the fixed pool enumerated"
-    stream_known(ctx)
     stream_known_minmax(ctx)
     # fidelity percentages
     for st in ("rand", "ext", "exh"):
